@@ -119,6 +119,8 @@ def run_ops(ops, workdir, name):
             rec['ref'] = memlist(mj)
         rec['visible'], rec['fsize'], rec['meta'] = view(), os.path.getsize(path), meta()
         steps.append(rec)
+        if rec['exc']:
+            break       # an operation that raised leaves the object in no state the specification defines: the sequence ends here
         if killed:
             fj, mj = reopen()       # a dead process can only be started again
             steps.append({'op': 'reopen', 'kill': -1, 'exc': False, 'mem': memlist(fj), 'ref': memlist(mj),
@@ -140,12 +142,12 @@ def gen_sequences(tier, seed):
     for s in itertools.product(alphabet, repeat=L):
         seqs.append([(k, a, None) for (k, a) in s])
     base = [[('add', 30), ('add', 1000), ('add', 30)], [('add', 0), ('add', 30), ('add', 30), ('add', 30)],
-            [('add', 30), ('setc', 3), ('add', 2500)]]
+            [('add', 30), ('setc', 3), ('add', 2500)], [('add', 30), ('setc', 4), ('timer', None), ('setc', 6)]]
     for b in base:
         for op in [('add', 30), ('add', 2500), ('clear', None), ('delfrom', 1), ('delto', 1), ('delto', 2), ('setc', 2), ('timer', None)]:
             for k in range(0, 8):
                 pre = [(x, a, None) for (x, a) in b]
-                if op[0] == 'timer':
+                if op[0] == 'timer' and b[-1][0] != 'setc':
                     pre.append(('setc', 5, None))
                 seqs.append(pre + [(op[0], op[1], k)])
     nrand = 300 if tier == 'quick' else 6000
